@@ -463,7 +463,7 @@ def encoder_rules(cfg, R, lib):
         ob(c, f.loc, len(calls) >= len(keys) and not bad and len(K) == 1,
            'basic-scope codes %s are not seconds / (60 * %s)' % (bad or [ast.unparse(n) for n in calls], sorted(K)))
     # -- years
-    f, s = _py_summary(ar, 'to_tiny_year')
+    f = ar.fn('to_tiny_year')
     c = 'zonedb.argenerator.to_tiny_year'
     consts = {n: py.const_value(cfg, ar, n) for n in ('EPOCH_YEAR', 'MAX_YEAR', 'MAX_YEAR_TINY', 'MIN_YEAR', 'MIN_YEAR_TINY',
                                                        'MAX_UNTIL_YEAR', 'MAX_UNTIL_YEAR_TINY')}
@@ -472,13 +472,20 @@ def encoder_rules(cfg, R, lib):
            'max_until_tiny': lib.const('ace_time::basic::ZoneEra::kMaxUntilYearTiny'),
            'xmax_tiny': lib.const('ace_time::extended::ZoneRule::kMaxYearTiny'),
            'xmax_until_tiny': lib.const('ace_time::extended::ZoneEra::kMaxUntilYearTiny')}
-    outs = {}
-    for g, k, r, _e in s.paths:
-        if k == 'return':
-            outs[repr(_P(r))] = formula_pos(g)
-    want = {'MAX_YEAR_TINY', 'MIN_YEAR_TINY', '-1*EPOCH_YEAR + year'}
-    ok = set(outs) == want
-    msg = 'to_tiny_year returns %s, expected %s' % (sorted(outs), sorted(want))
+    # interpreted (E-SEQ over the Python ast) on every year a rule can carry: the two sentinels map to their tiny sentinels,
+    # every other year to year - EPOCH_YEAR
+    from .pyeval import PyEval, Raised as _PRaised
+    pev = PyEval(cfg)
+    ok, msg = True, ''
+    for y in [consts['MIN_YEAR'], consts['MAX_YEAR']] + list(range(1872, 2128)):
+        want_ = consts['MAX_YEAR_TINY'] if y == consts['MAX_YEAR'] else consts['MIN_YEAR_TINY'] if y == consts['MIN_YEAR'] else y - consts['EPOCH_YEAR']
+        try:
+            got_ = pev.call(ar, 'to_tiny_year', [y])
+        except _PRaised as x_:
+            got_ = 'raises %s' % x_.what
+        if got_ != want_:
+            ok, msg = False, 'to_tiny_year(%d) is %s, expected %s' % (y, got_, want_)
+            break
     if ok:
         if consts['EPOCH_YEAR'] != cpp['epoch']:
             ok, msg = False, 'EPOCH_YEAR=%r but LocalDate::kEpochYear=%r' % (consts['EPOCH_YEAR'], cpp['epoch'])
